@@ -133,7 +133,7 @@ UpPost(r, dig, alg, mount, from, chunk) ==
   IF ~CanPush \/ r \notin Repos THEN resp' = Refused /\ UNCHANGED <<blob, sess, nsess, young>>
   ELSE IF mountHit THEN
        /\ blob' = [blob EXCEPT ![r] = @ \cup {mount}]
-       /\ young' = [young EXCEPT ![r] = @ \cup ({mount} \ blob[r])]
+       /\ young' = [young EXCEPT ![r] = @ \cup {mount}]       \* an acknowledged push is recent, also of content already held
        /\ resp' = [Ok(201) EXCEPT !.dig = mount]
        /\ UNCHANGED <<sess, nsess>>
   ELSE IF ~ValidAlgParam(alg) \/ (dig # "" /\ ~WellFormed(dig)) \/ (dig = "" /\ mount # "" /\ ~WellFormed(mount))
@@ -143,7 +143,8 @@ UpPost(r, dig, alg, mount, from, chunk) ==
        \* (when the body does not match, acknowledging the existing blob and refusing the body are both fine)
        IF dig \in blob[r] THEN /\ resp' = IF DataIs(<< <<chunk.c, chunk.p>> >>, dig) THEN [Ok(201) EXCEPT !.dig = dig]
                                             ELSE [Refused EXCEPT !.class = "any"]
-                              /\ UNCHANGED <<blob, sess, nsess, young>>
+                              /\ young' = [young EXCEPT ![r] = @ \cup {dig}]
+                              /\ UNCHANGED <<blob, sess, nsess>>
        ELSE IF DataIs(<< <<chunk.c, chunk.p>> >>, dig)
             THEN /\ blob' = [blob EXCEPT ![r] = @ \cup {dig}]
                  /\ young' = [young EXCEPT ![r] = @ \cup {dig}]
@@ -151,7 +152,7 @@ UpPost(r, dig, alg, mount, from, chunk) ==
                  /\ UNCHANGED <<sess, nsess>>
             ELSE resp' = Refused /\ UNCHANGED <<blob, sess, nsess, young>>
   ELSE IF mount # "" /\ mount \in blob[r]         \* "mount" of something the repository already holds
-       THEN resp' = [Ok(201) EXCEPT !.dig = mount] /\ UNCHANGED <<blob, sess, nsess, young>>
+       THEN resp' = [Ok(201) EXCEPT !.dig = mount] /\ young' = [young EXCEPT ![r] = @ \cup {mount}] /\ UNCHANGED <<blob, sess, nsess>>
   ELSE \* a new session; a mount that could not be satisfied falls back to a session expecting that digest
        LET h == Handle(nsess + 1) IN
        /\ nsess' = nsess + 1
@@ -259,7 +260,7 @@ ManPut(r, ref, ctype, body, dparam) ==
      THEN LET d == PushDigest(ref, dparam, body)
               mt == IF ctype = "" THEN M(body).mt ELSE ctype
           IN /\ blob' = [blob EXCEPT ![r] = @ \cup {d}]
-             /\ young' = [young EXCEPT ![r] = @ \cup ({d} \ blob[r])]
+             /\ young' = [young EXCEPT ![r] = @ \cup {d}]          \* a pushed manifest is recent, also when it was already held
              /\ man' = [man EXCEPT ![r] = Upd(@, d, mt)]
              /\ tag' = IF ref.k = "tag" THEN [tag EXCEPT ![r] = Upd(@, ref.v, d)] ELSE tag
              /\ resp' = [Ok(201) EXCEPT !.dig = d,
@@ -414,7 +415,10 @@ RECURSIVE GCFix(_, _)
 GCFix(r, R) == IF GCStep(r, R) = R THEN R ELSE GCFix(r, GCStep(r, R))
 BlobsOf(r, R) == R \cup UNION {({M(CidOf(d)).cfg} \cup Range(M(CidOf(d)).layers)) \cap blob[r] : d \in ImageIn(R)}
 
+\* (a manifest younger than the grace period is retained, so what it references is retained with it: a collection between
+\*  the push of an image by digest and the push of the index that lists it must not take the image's layers)
 RootsMust(r) == (Tagged(r) \cap blob[r]) \cup (IF ~Cfg.untagged THEN {d \in ManSet(r) : ~IsArt(d)} ELSE {})
+                \cup (Young(r) \cap ManSet(r))
 MustMan(r)   == GCFix(r, RootsMust(r))
 MustBlobs(r) == BlobsOf(r, MustMan(r)) \cup Young(r)
 MustAddr(r)  == (MustMan(r) \cup Young(r)) \cap ManSet(r)          \* manifests that must stay addressable
